@@ -463,7 +463,7 @@ def correspond(ctx):
     rejected_stream(corr, tables0)
     check_rot_angles(corr, rows)
     # decompositions
-    cases = [("haar", haar(ctx.rng)) for _ in range(ctx.n(300, 3000))] + families(ctx.rng, ctx.n(30, 300))
+    cases = [("haar", haar(ctx.rng)) for _ in range(ctx.n(1000, 10000))] + families(ctx.rng, ctx.n(60, 500))
     for kind, U in cases:
         for m in METHODS:
             if m in methods:
